@@ -150,11 +150,12 @@ add('C11', 'proof', 'Lean 4 theorems (interchange law, associativity, sweep = me
 add('C16', 'proof', 'Lean 4 theorems over Q (and R for the square-root model) about rational error-model distributions + float-vs-exact correspondence',
     'Non-negativity, sum 1, Pr(I) = 1-p, documented shapes (thirds; high = bias x sum of lows; Y:X = bias with the defining '
     'equations and uniqueness of their non-negative solution, over Q with an explicit root and over R with Real.sqrt), '
-    'centre-slice ratio on the segment, negative limit on the triangle boundary, special cases and constructor domains — 36 '
-    'Lean theorems for all p in [0,1] and all accepted parameters. The float evaluation is NOT proved: on every run the real '
+    'centre-slice ratio on the segment, negative limit on the triangle boundary, special cases and constructor domains; the X<->Y symmetry '
+    'rateX h = rateY (1/h) and the scale invariance of the limit normalisation, which justify the two repaired overflow branches '
+    '(Props/C16/Symmetry.lean) — 53 Lean theorems for all p in [0,1] and all accepted parameters. The float evaluation is NOT proved: on every run the real '
     'probability_distribution floats are compared with the exact rational model at the rational value of the float inputs '
     '(1e-12 relative) or substituted into the defining equations by the Lean checker, on wide grids incl. endpoints and '
-    'extreme biases, and the property is evaluated directly on the floats (strict non-negativity). Five genuine defects found '
+    'extreme biases and parameter magnitudes over the whole double range, and the property is evaluated directly on the floats (strict non-negativity). Seven genuine defects found '
     'this way were repaired in /repo (fix: commits, see known_findings.json).',
     TB + 'IEEE-754 evaluation of the closed forms is explored on grids, not proved.')
 add('C14', 'proof', 'Lean 4 theorems: naive decoder (min weight, corrects total weight <= t) and, for ALL planar / toric sizes, MWPM corrects every error with |X|,|Z| <= t for any minimum-weight perfect matching (T-join lemma); exhaustive sweep through the real decoders',
@@ -240,7 +241,7 @@ add('C02', 'proof', 'Lean 4 theorems: recovery reproduces the syndrome for EVERY
     'error (snake fills, destabilisers incl. the co-prime billiard lemma, residual look-up table sound and total, '
     'Y-stabilizers = the 2^(gcd-1) Y-only centraliser elements, decode never raises); for the SMWPM decoders also EXISTENCE of '
     'perfect matchings at finite bias, at infinite bias for Y-only noise and at p = 0 (so decoding never fails given a maximum-cardinality matching), with the line-parity / feasibility conditions proved NECESSARY as well (iff), and the toric _cluster_graph assert (even number of defective clusters) proved never to fire on reachable syndrome arrays (Props/C02/SmwpmEven.lean); the naive decoder (sound, complete, guard); the monitor recoveryOk decides the property for all '
-    'errors with that syndrome at once. C15/C07 interface hypotheses are discharged (Props/C02/Instances.lean) — 136 theorems. '
+    'errors with that syndrome at once. C15/C07 interface hypotheses are discharged (Props/C02/Instances.lean) — 138 theorems. '
     'Tie: exact comparison of sample_recovery, recorded gt.mwpm graphs / matchings / clusters / stage recoveries / final '
     'recovery given the recorded matchings, the Y decoder\'s cached operators and residual table; and every registry decoder run '
     'on real syndromes (all syndromes of the smallest codes, every weight on larger ones, all parameterisations and context '
